@@ -36,6 +36,16 @@ type Violation struct {
 	File     string
 }
 
+type obsRec struct {
+	Name string
+	Val  Str
+}
+
+type valSample struct {
+	Inputs map[string]interface{}
+	Obs    []string
+}
+
 type Inconclusive struct {
 	Kind string
 	Msg  string
@@ -56,7 +66,7 @@ type pathState struct {
 
 	inputs   []inputRec
 	names    map[string]int
-	obs      []string
+	obs      []obsRec
 	recovered []*targetPanic
 	sharedWrites []string
 	reached  map[string]int
@@ -96,6 +106,9 @@ type Explorer struct {
 	samples     []map[string]interface{}
 	sharedWrites map[string]int
 	obsSample   [][]string
+	valSamples  []valSample
+	sampleN     int
+	seed        int64
 	unexplored  int
 }
 
@@ -442,7 +455,7 @@ func (ex *Explorer) addViolation(in *Interp, ps *pathState, id, msg string, m ma
 		return // keep at most 3 witnesses per assert id
 	}
 	ex.violations = append(ex.violations, &Violation{Property: ex.property, Harness: ex.harness, Assert: id, Msg: msg, Inputs: w,
-		Path: append([]int32(nil), ps.trace...), Obs: append([]string(nil), ps.obs...)})
+		Path: append([]int32(nil), ps.trace...), Obs: ps.evalObs(in, m)})
 }
 
 func (ex *Explorer) addInconclusive(ic Inconclusive) {
@@ -492,5 +505,23 @@ func sortedKeys(m map[string]int) []string {
 		r = append(r, k)
 	}
 	sort.Strings(r)
+	return r
+}
+
+// evalObs evaluates the recorded observations under model m.
+func (ps *pathState) evalObs(in *Interp, m map[*Term]uint64) []string {
+	r := make([]string, 0, len(ps.obs))
+	memo := map[*Term]uint64{}
+	for _, o := range ps.obs {
+		if o.Val.B == nil {
+			r = append(r, o.Name+"="+o.Val.S)
+			continue
+		}
+		b := make([]byte, len(o.Val.B))
+		for i, t := range o.Val.B {
+			b[i] = byte(t.Eval(m, memo))
+		}
+		r = append(r, o.Name+"="+string(b))
+	}
 	return r
 }
